@@ -90,8 +90,12 @@ def run_call(prog: dict) -> dict:
 
 
 def entry_program(what: str, timeout_s: float, retries: int, fam: str | None, answer: str | None = None) -> dict:
-    """Entry point on a silent network (or one where only family `answer` responds)."""
+    """Entry point on a silent network, or one where only the AA55 identification probe is answered (with a serial
+    number carrying the model tag `answer`) and every later request goes unanswered."""
     sim = {"silent": [[0, 65535]], "aa55": {"mute": True}}
+    if answer:
+        sim = {"silent": [[0, 65535]], "aa55": {"info": list(es_info(serial_for(answer) if answer not in ("ESU", "BPS") else "95048" + answer + "000W0000")),
+                                                "info_once": True}}
     kw = {"timeout": timeout_s, "retries": retries}
     if what == "connect":
         calls = [{"api": "goodwe.connect", "args": ["inv0"], "kw": dict(kw, family=fam)}]
@@ -103,7 +107,8 @@ def entry_program(what: str, timeout_s: float, retries: int, fam: str | None, an
         calls = [{"api": "goodwe.search_inverters", "args": []}]
         timeout_s, retries = 1, 0
     return {"inv": [{"family": None, "sim": sim}], "calls": calls, "delay": 0,
-            "case": {"case": "entry", "what": what + (":" + fam if fam else ""), "T": int(round(timeout_s / TICK)), "retries": retries}}
+            "case": {"case": "entry", "what": what + (":" + fam if fam else "") + ("/answer=" + answer if answer else ""),
+                     "T": int(round(timeout_s / TICK)), "retries": retries}}
 
 
 def run_entry(prog: dict) -> dict:
@@ -113,10 +118,15 @@ def run_entry(prog: dict) -> dict:
     sends = []
     endT = -1
     ret = {}
+    probe = 0
     for ev in tr["ev"]:
-        if ev["e"] == "SEND":
+        if ev["e"] == "XCALL":
+            probe += 1          # every ProtocolCommand.execute() call is one probe
+        elif ev["e"] == "SEND":
             f = frames.setdefault(bytes(ev["data"]), len(frames) + 1)
-            sends.append({"t": ev["t"], "f": f})
+            sends.append({"t": ev["t"], "f": f * 1000 + probe, "a": False})
+        elif ev["e"] == "DLV" and sends:
+            sends[-1]["a"] = True
         elif ev["e"] == "RET":
             endT = ev["t"]
             ret = ev
@@ -160,6 +170,9 @@ def extend(run: Run, prop: str, tier: str, rnd: random.Random) -> None:
                 eprogs.append(entry_program("connect", t, r, fam))
             eprogs.append(entry_program("connect_discover", t, r, None))
             eprogs.append(entry_program("discover", t, r, None))
+            for tag in ("ETU", "EHU", "ETT", "ESU", "BPS", "DTU", "DSN", "MSU"):
+                eprogs.append(entry_program("discover", t, r, None, answer=tag))
+            eprogs.append(entry_program("connect_discover", t, r, None, answer="DTU"))
         eprogs.append(entry_program("search", 1, 0, None))
         cases += engine.parallel_map("harness.checks_api", "run_entry", eprogs, procs=16, chunk=2)
     for c in cases:
